@@ -11,6 +11,12 @@ use std::sync::{Arc, RwLock};
 
 thread_local! {
     static THREAD_NOW_MS: Cell<Option<u64>> = const { Cell::new(None) };
+    static THREAD_TABLE: std::cell::RefCell<Option<HashMap<u32, u64>>> = const { std::cell::RefCell::new(None) };
+}
+
+/// Install (or clear) a table `TSval -> arrival time (ms)` seen by the calling thread only.
+pub fn set_thread_clock_table(table: Option<HashMap<u32, u64>>) {
+    THREAD_TABLE.with(|t| *t.borrow_mut() = table);
 }
 
 const UNSET: u64 = u64::MAX;
@@ -38,6 +44,9 @@ pub fn set_global_clock_table(table: Option<HashMap<u32, u64>>) {
 pub(crate) fn now_ms_for(ts_val: u32) -> Option<u64> {
     if let Some(now) = THREAD_NOW_MS.with(|c| c.get()) {
         return Some(now);
+    }
+    if let Some(ms) = THREAD_TABLE.with(|t| t.borrow().as_ref().and_then(|m| m.get(&ts_val).copied())) {
+        return Some(ms);
     }
     if let Ok(guard) = GLOBAL_TABLE.read() {
         if let Some(table) = guard.as_ref() {
